@@ -786,6 +786,15 @@ class Interp:
                 parts.append(p.value)
             else:
                 v = self.eval(p.value, frame)
+                if p.format_spec is not None:
+                    spec = self.eval(p.format_spec, frame)
+                    if spec == "x" and is_intlike(v):
+                        # lower-case hexadecimal numeral of an int: an uninterpreted text with the facts the callers rely on
+                        hx = z3.Function("hex_numeral", z3.IntSort(), z3.StringSort())(zi(v))
+                        self.path.assume(z3.Length(hx) >= 1, check=False)
+                        parts.append(SStr(hx))
+                        continue
+                    self.unsupported(f"format specification {spec!r}", node)
                 if p.conversion == 114:
                     parts.append(self.py_repr(v, node))
                 else:
